@@ -204,7 +204,9 @@ func runC02driver(c *ctx) {
 			if cs.v11 {
 				fr := (&sim.NCServer{Version: "1.1"}).Frame(sim.NCReply{Payload: cs.payload[k], Chunks: cs.chunks[k]})
 				body := fr[:len(fr)-3] // without the final "##\n"
-				hl = bytes.Contains(body, []byte("\n##\n"))
+				// "\n##" followed by LF always ends the message early; followed by anything else it
+				// does so when a read boundary falls right after it ($ matches at end of buffer)
+				hl = bytes.Contains(body, []byte("\n##"))
 			}
 			if o.errs[k] == "nil" && o.results[k] == want && o.failed[k] == wantFailed {
 				continue
